@@ -23,6 +23,8 @@ type PathQuery struct {
 	Prune func(cond ast.Expr, takeTrue bool) bool
 	// StopBlock: paths end (count as having passed `via`) when they enter such a block.
 	StopBlock func(b *cfg.Block) bool
+	// ToBlock: entering such a block counts as reaching the target.
+	ToBlock func(b *cfg.Block) bool
 }
 
 // loopHead matches the head block of the given range/for statement (entered at every iteration).
@@ -126,6 +128,9 @@ func (q *PathQuery) Escapes(from, to, via nodePred, exitOK func(ret *ast.ReturnS
 			continue
 		}
 		seen[ref] = true
+		if q.ToBlock != nil && s.i == 0 && s.prev != nil && q.ToBlock(s.b) {
+			return s.prev.list()
+		}
 		if q.StopBlock != nil && s.i == 0 && q.StopBlock(s.b) {
 			continue
 		}
